@@ -185,6 +185,9 @@ pub fn builder_plans(ctx: &mut Ctx, opts: &RunOpts) {
             ctx.count("builder-plans");
         }
     }
+    // builder re-use: build() twice from one builder (it stores id and the key in its own content), then
+    // once more with another key of the same scheme — each result must be the model's
+    builder_reuse(ctx);
     // builder with fault on the signing call
     for (kt, scheme) in kinds() {
         n += 1;
@@ -576,4 +579,63 @@ pub fn c03_hist_part(ctx: &mut Ctx) {
         exhaustive_sub(ctx, 2, &["built-typical", "decoded-nested"], &opts, &all);
     }
     random_histories(ctx, if q { 500 } else { 30_000 }, 30, 150, &opts, &all);
+}
+
+
+fn builder_reuse(ctx: &mut Ctx) {
+    use crate::keys::*;
+    use crate::obs::observe;
+    use enr::Enr;
+    fn go<KK: KeyKind>(ctx: &mut Ctx, scheme: Scheme) {
+        let own = KK::make(scheme, &secret_from(scheme, OWN));
+        let other = KK::make(scheme, &secret_from(scheme, OTHER));
+        let pub_of = |label: u64| own_ref(scheme, label).pub_bytes();
+        let r = crate::util::guard(|| {
+            let mut b = Enr::<KK::K>::builder();
+            b.udp4(7).add_value("x", &3u8);
+            let first = b.build(&own);
+            let second = b.build(&own);
+            b.tcp4(9);
+            let third = b.build(&other);
+            (first, second, third)
+        });
+        ctx.count("evaluations");
+        ctx.count("builder-reuse");
+        let replay = || json!({"kind": "note", "what": "builder-reuse", "kt": KK::name()});
+        match r {
+            Err(p) => ctx.violate("C03", "panic", &format!("builder-reuse/{}", crate::util::panic_sig(&p)), || p.clone(), replay),
+            Ok((a, b2, c)) => {
+                for (i, (res, signer, tcp)) in [(a, OWN, false), (b2, OWN, false), (c, OTHER, true)].into_iter().enumerate() {
+                    match res {
+                        Ok(e) => {
+                            if let Ok(o) = observe(&e) {
+                                let ms = MSigner { scheme, pubkey: pub_of(signer), sig_len: if scheme == Scheme::Toy { None } else { Some(64) } };
+                                let mut entries = vec![BEntry::Udp4(7), BEntry::Add(b"x".to_vec(), Val::U8(3))];
+                                if tcp {
+                                    entries.push(BEntry::Tcp4(9));
+                                }
+                                let pred = predict_build(&entries, &ms);
+                                let got: Pairs = o.pairs.iter().cloned().collect();
+                                if got != pred.pairs || o.seq != 1 {
+                                    ctx.violate("C08", "pairs-differ-from-model", "build-reuse", || format!("{}: build #{i} from a re-used builder", KK::name()), replay);
+                                }
+                                crate::hist::check_state::<KK>(ctx, &e, &o, "build-reuse", &RunOpts::default(), &replay);
+                            }
+                        }
+                        Err(er) => ctx.violate("C08", "error-without-cause", "build-reuse", || format!("{}: build #{i} from a re-used builder failed: {er:?}", KK::name()), replay),
+                    }
+                }
+            }
+        }
+    }
+    if !ctx.mine(7) {
+        return;
+    }
+    go::<K256K>(ctx, Scheme::Secp);
+    #[cfg(feature = "libsecp")]
+    go::<LibsecpK>(ctx, Scheme::Secp);
+    go::<EdK>(ctx, Scheme::Ed);
+    go::<CombK>(ctx, Scheme::Secp);
+    go::<CombK>(ctx, Scheme::Ed);
+    go::<ToyK>(ctx, Scheme::Toy);
 }
